@@ -25,13 +25,20 @@ fn sp(j: usize) -> std::ops::Range<usize> {
     nd::assume(s < 1000 && l < 100);
     (s + j)..(s + j + l)
 }
-fn check_list(es: &ErrSpan, n: usize, first: &std::ops::Range<usize>) {
+fn check_list(es: &ErrSpan, want: &[&std::ops::Range<usize>]) {
     // both queries must be answerable for every list an assembler/linker error can carry
+    let n = want.len();
     let f = es.first();
-    let cnt = es.iter().count();
+    let mut cnt = 0;
+    for s in es.iter() {
+        if cnt < n {
+            assert!(*s == *want[cnt], "span list does not hold exactly the spans it was built from, in order");
+        }
+        cnt += 1;
+    }
     assert!(cnt == n, "span list lost or invented spans");
     if n > 0 {
-        assert!(f == *first, "first() is not the first span");
+        assert!(f == *want[0], "first() is not the first span");
     }
 }
 
@@ -42,26 +49,26 @@ crate::asm_harnesses! {
         let (s0, s1, s2) = (sp(0), sp(1), sp(2));
         // the linker reports block overlaps as `AsmErr::new(kind, [])`
         let e0 = AsmErr::new(AsmErrKind::OverlappingBlocks, []);
-        check_list(&e0.span, 0, &s0);
+        check_list(&e0.span, &[]);
         let e1 = AsmErr::new(AsmErrKind::UnclosedOrig, s0.clone());
-        check_list(&e1.span, 1, &s0);
+        check_list(&e1.span, &[&s0]);
         let e2 = AsmErr::new(AsmErrKind::OverlappingLabels, [s0.clone(), s1.clone()]);
-        check_list(&e2.span, 2, &s0);
+        check_list(&e2.span, &[&s0, &s1]);
         let e3 = AsmErr::new(AsmErrKind::OverlappingBlocks, [s0.clone(), s1.clone(), s2.clone()]);
-        check_list(&e3.span, 3, &s0);
+        check_list(&e3.span, &[&s0, &s1, &s2]);
         // pass 1 reports labels outside a block through a Vec of spans (any number of labels >= 1)
         let v1 = AsmErr::new(AsmErrKind::UndetAddrLabel, vec![s0.clone()]);
-        check_list(&v1.span, 1, &s0);
+        check_list(&v1.span, &[&s0]);
         let v2 = AsmErr::new(AsmErrKind::UndetAddrLabel, vec![s0.clone(), s1.clone()]);
-        check_list(&v2.span, 2, &s0);
+        check_list(&v2.span, &[&s0, &s1]);
         let v3 = AsmErr::new(AsmErrKind::UndetAddrLabel, vec![s0.clone(), s1.clone(), s2.clone()]);
-        check_list(&v3.span, 3, &s0);
+        check_list(&v3.span, &[&s0, &s1, &s2]);
         let v0 = AsmErr::new(AsmErrKind::UndetAddrLabel, Vec::<std::ops::Range<usize>>::new());
-        check_list(&v0.span, 0, &s0);
+        check_list(&v0.span, &[]);
         // Extend
         let mut x = ErrSpan::from(s0.clone());
         x.extend([s1.clone(), s2.clone()]);
-        check_list(&x, 3, &s0);
+        check_list(&x, &[&s0, &s1, &s2]);
         std::mem::forget((e0, e1, e2, e3, v0, v1, v2, v3, x));
     }
 }
